@@ -26,7 +26,7 @@ AltFor(v, c) == IF Len(v) <= 2 THEN AltImage(c) ELSE <<>>
 
 FileNames == << <<97>>, <<98, 46, 108, 122>>, <<130, 160, 149, 92, 46, 98>> >>      \* "a", "b.lz", 2-byte chars + ".b"
 Body(i, len) == [j \in 1..len |-> (i * 71 + j * 13) % 256]
-Lens == IF Quick THEN {0, 1, 4, 5, 33} ELSE {0, 1, 4, 5, 32, 33, 96}
+Lens == IF Quick THEN {0, 1, 5, 33} ELSE {0, 1, 4, 5, 32, 33, 96}
 ErrLens == {0, 1, 5}
 Values(n, lens) == { [i \in 1..n |-> <<FileNames[i], Body(i, ls[i])>>] : ls \in [1..n -> lens] }
 MaxN == 3
@@ -86,6 +86,8 @@ WordErrs(n) ==
   \cup { [kind |-> "words", j |-> j, ow |-> b[1], sw |-> b[2]] : j \in 1..n, b \in BothWords }
   \cup { [kind |-> "wrapsum", j |-> j] : j \in 1..n }
 WordLens == {0, 5}
+NamePtrErrs(n) == { [kind |-> "nameptr", j |-> j, target |-> t, listed |-> l] :
+                      j \in 1..n, t \in {"zero", "base", "ds4", "ds1", "ds"}, l \in BOOLEAN }
 
 \* ---- seeded pseudo-random layouts (thorough): 4..7 files
 Lcg(x) == (x * 75 + 74) % 65537
@@ -117,14 +119,14 @@ PickLayout == c.k = "val" /\ c' \in { [k |-> "lay", v |-> c.v, lay |-> l, err |-
 PickError == /\ c.k = "val" /\ \A i \in 1..Len(c.v) : Len(BodyOf(c.v[i])) \in ErrLens
              /\ c' \in { [k |-> "lay", v |-> c.v, lay |-> l, err |-> e] : l \in ErrLays(Len(c.v)), e \in Errs(Len(c.v)) }
 PickWordError == /\ c.k = "val" /\ \A i \in 1..Len(c.v) : Len(BodyOf(c.v[i])) \in WordLens
-                 /\ c' \in { [k |-> "lay", v |-> c.v, lay |-> l, err |-> e] : l \in ErrLays(Len(c.v)), e \in WordErrs(Len(c.v)) }
+                 /\ c' \in { [k |-> "lay", v |-> c.v, lay |-> l, err |-> e] : l \in ErrLays(Len(c.v)), e \in WordErrs(Len(c.v)) \cup NamePtrErrs(Len(c.v)) }
 PickSeed == c.k = "root" /\ c' \in { [k |-> "rnd", seed |-> s, step |-> 0] : s \in RndSeeds }
 StepSeed == c.k = "rnd" /\ c.step < RndSteps /\ c' = [k |-> "rnd", seed |-> Lcg(c.seed), step |-> c.step + 1]
 Next == PickValue \/ PickLayout \/ PickError \/ PickWordError \/ PickSeed \/ StepSeed
 Spec == Init /\ [][Next]_c
 
 ExpectedErr(kind) == CASE kind = "nocount" -> "NoCount" [] kind = "noinfo" -> "NoInfo"
-                       [] kind = "noname" -> "MissingName" [] OTHER -> "RangeOutside"
+                       [] kind \in {"noname", "nameptr"} -> "MissingName" [] OTHER -> "RangeOutside"
 LayoutLaw(v, lay, err) ==
   LET ct == ArcContent(v, lay, err) IN
   /\ IsArcValue(v) /\ IsLayoutFor(v, lay)
